@@ -378,6 +378,7 @@ class MultiFit(FitBase):
         self._initialize_fitter()
 
     def _initialize_fitter(self):
+        _previous_fitter = getattr(self, "_fitter", None)
         self._fitter = NexusFitter(
             nexus=self._nexus,
             parameters_to_fit=list(self._combined_parameter_node_dict.keys()),
@@ -385,6 +386,12 @@ class MultiFit(FitBase):
             minimizer=self._minimizer,
             minimizer_kwargs=self._minimizer_kwargs,
         )
+        if _previous_fitter is not None:
+            # the fitter is rebuilt when the first shared error is added: keep fixed and limited parameters
+            for _par_name, _par_value in _previous_fitter.fixed_parameters.items():
+                self._fitter.fix_parameter(_par_name, _par_value)
+            for _par_name, _par_limits in _previous_fitter.limited_parameters.items():
+                self._fitter.limit_parameter(_par_name, _par_limits)
 
     def _add_error_object(self, error_object, reference, name=None, axis=None):
         from ..indexed import IndexedFit
